@@ -290,6 +290,9 @@ def check(ctx):
     check_normalize(ctx)
     check_normal_form(ctx)
     check_foliate(ctx)
+    # a diagram that cannot be normalised is refused with NotImplementedError whose message is built from str(diagram): printing must not fail
+    ctx.depend("R06.3", "C03", "str() of boxes, layers and diagrams returns a string whatever the names are (the refusal message of normal_form is built from it)", rules={"R03.3"},
+               constructs=[":returns-str"], mod="discopy.cat")
     ctx.floor("R06.1", 4)
     ctx.floor("R06.2", 10)
     ctx.floor("R06.3", 6)
